@@ -21,7 +21,7 @@ TC == INSTANCE TargetsContract
 Kinds == {"REQ", "HDR", "BODY", "COM", "BLANK", "WS"}
 
 \* a line of kind k at position i gets texts that identify the position
-Line(k, i) == [k |-> k, a |-> (IF k = "REQ" THEN "M" ELSE IF k = "BODY" THEN "body" ELSE "K") \o ToString(i), b |-> "v" \o ToString(i)]
+Line(k, i) == [k |-> k, a |-> (IF k = "REQ" THEN "M" ELSE IF k = "BODY" THEN "body" ELSE "K") \o ToString(i), b |-> (IF k = "BODY" /\ i % 2 = 0 THEN "" ELSE "v" \o ToString(i))]     \* every other body file is empty
 
 KindSeqs == UNION {[1..n -> Kinds] : n \in 0..MaxLines}
 Lines(ks) == [i \in 1..Len(ks) |-> Line(ks[i], i)]
